@@ -1,5 +1,6 @@
 (* C04 — serialisation always emits the canonical well-formed form. *)
-From UL Require Import Bytes Subtags LangId Ext Likely Inst Ops Grammar LangIdSpec LocaleInv Canonical LangIdProofs CanonProofs InvProofs TablesData OpsInvProofs LengthProofs LocaleLength RoundTrip.
+From UL Require Import Bytes Subtags LangId Ext Likely Inst Ops Grammar LangIdSpec LocaleInv Canonical LangIdProofs CanonProofs InvProofs TablesData OpsInvProofs LengthProofs LocaleLength RoundTrip CanonLocale CanonLocaleProofs.
+From Coq Require Import String.
 
 (* every LanguageIdentifier satisfying the safe-API invariant prints as canonical text: only ASCII
    letters, digits and '-'; language lower, script Title, region UPPER, variants lower, strictly sorted *)
@@ -26,9 +27,9 @@ Theorem C04_reach_mutation : forall s o s' w, loc_inv s = true -> step the_table
 Proof. exact (step_inv the_tables data_full_extend data_wf_ints). Qed.
 
 (* canonicalize(s) is never longer than s: LanguageIdentifier, then Locale *)
-Theorem C04_canonicalize_not_longer : forall s t, li_canonicalize s = Ok t -> (length t <= length s)%nat.
+Theorem C04_canonicalize_not_longer : forall s t, li_canonicalize s = Ok t -> (List.length t <= List.length s)%nat.
 Proof. exact li_canonicalize_length. Qed.
-Theorem C04_locale_canonicalize_not_longer : forall s t, loc_canonicalize s = Ok t -> (length t <= length s)%nat.
+Theorem C04_locale_canonicalize_not_longer : forall s t, loc_canonicalize s = Ok t -> (List.length t <= List.length s)%nat.
 Proof. exact loc_canonicalize_length. Qed.
 (* Locale canonicalize(s) is exactly to_string of the parsed value, which satisfies the invariant *)
 Theorem C04_locale_canonicalize : forall s t, loc_canonicalize s = Ok t ->
@@ -38,13 +39,35 @@ Proof.
   intros H. injection H as <-. exists l. repeat split. exact (locale_parse_inv _ _ E).
 Qed.
 (* the ExtensionsMap printer prepends the separator, so its output is at most one byte longer *)
-Theorem C04_extmap_not_longer : forall s e, extmap_from_bytes s = Ok e -> (length (ext_to_string e) <= length s + 1)%nat.
+Theorem C04_extmap_not_longer : forall s e, extmap_from_bytes s = Ok e -> (List.length (ext_to_string e) <= List.length s + 1)%nat.
 Proof. exact extmap_parse_length. Qed.
+(* explicit form: the printed text of every invariant-satisfying Locale passes the strict recogniser of
+   canonical Locale text written from the statement (spec/CanonLocale.v): order t, u, x; attributes strictly
+   sorted; keys strictly sorted; no `true` values; no empty extension; private tags sorted; case; alphabet *)
+Theorem C04_locale_canonical : forall l, loc_inv l = true -> canon_locale_strict (loc_to_string l) = true.
+Proof. exact loc_to_string_canonical. Qed.
+(* the recogniser is not vacuous: it accepts ordinary canonical text and rejects each listed defect *)
+Example C04_strict_examples :
+  let ok s := canon_locale_strict (bs s) in
+  ok "en-US-t-de-h0-hybrid-u-attr-ca-buddhist-x-foo"%string = true /\ ok "en-u-bar-foo"%string = true /\ ok "en-x-a-b"%string = true
+  /\ ok "und-t-h0"%string = true
+  /\ ok "en-u-ca-buddhist-t-de"%string = false      (* u before t *)
+  /\ ok "en-u-foo-bar"%string = false               (* attributes not sorted *)
+  /\ ok "en-u-foo-foo"%string = false               (* repeated attribute *)
+  /\ ok "en-u-nu-latn-ca-buddhist"%string = false   (* keywords not sorted by key *)
+  /\ ok "en-t-h0-hybrid-d0-fwidth"%string = false   (* tfields not sorted by key *)
+  /\ ok "en-u-ca-true"%string = false               (* a `true` value *)
+  /\ ok "en-x-b-a"%string = false                   (* private-use subtags not sorted *)
+  /\ ok "en-u"%string = false /\ ok "en-t"%string = false /\ ok "en-x"%string = false   (* empty extensions *)
+  /\ ok "EN"%string = false /\ ok "en_US"%string = false /\ ok "en-u-CA"%string = false /\ ok "en-t-DE"%string = false
+  /\ ok "en-a-foo"%string = false /\ ok "en-u-ca-t-h0-u-nu"%string = false.
+Proof. vm_compute. repeat split; reflexivity. Qed.
 (* the printed form of any invariant-satisfying Locale re-reads as that Locale: it is a well-formed
    identifier, and printing is injective on the invariant *)
 Theorem C04_locale_wellformed : forall l, loc_inv l = true -> locale_from_bytes (loc_to_string l) = Ok l.
 Proof. exact locale_roundtrip. Qed.
 
+Print Assumptions C04_locale_canonical.
 Print Assumptions C04_canonicalize_not_longer.
 Print Assumptions C04_locale_canonicalize_not_longer.
 Print Assumptions C04_locale_canonicalize.
